@@ -590,6 +590,20 @@ func (sc *specCtx) call(e *ast.CallExpr) Value {
 		// seq_eq(a, ao, b, bo, n) over content arrays
 		a, ao, b, bo, n := sc.eval(arg(0)).C[0], sc.evalInt(arg(1)), sc.eval(arg(2)).C[0], sc.evalInt(arg(3)), sc.evalInt(arg(4))
 		return mBool(App("streq", SBool, a, ao, n, b, bo, n))
+	case "hastype":
+		v := sc.eval(arg(0))
+		t := sc.typeExpr(arg(1))
+		return mBool(And(Ne(v.C[0], Num(0)), Eq(App("dyntype", SInt, v.C[0]), Num(typeID(t)))))
+	case "unbox":
+		v := sc.eval(arg(0))
+		t := sc.typeExpr(arg(1))
+		tn := typeName(t)
+		comps := Flatten(t)
+		out := Value{T: t, C: make([]*Term, len(comps))}
+		for k, c := range comps {
+			out.C[k] = App(fmt.Sprintf("unbox.%s.%d", tn, k), c.Sort, v.C[0])
+		}
+		return out
 	case "int":
 		return mInt(sc.evalInt(arg(0)))
 	case "wrap64":
@@ -602,6 +616,9 @@ func (sc *specCtx) call(e *ast.CallExpr) Value {
 		}
 		for i := range e.Args {
 			t = Select(t, sc.eval(arg(i)).C[0])
+		}
+		if g.NonNeg {
+			x.assumeTrue(Le(Num(0), t))
 		}
 		return ghostResult(g, t)
 	}
@@ -733,4 +750,33 @@ func (x *Exec) specFuncDefs() string {
 		fmt.Fprintf(&b, "(%s %s (%s) %s %s)\n", kw, symName("spec."+n), strings.Join(params, " "), rs, body.str(map[*Term]string{}))
 	}
 	return b.String()
+}
+
+// typeExpr resolves a type written in a spec (T, *T, pkg.T).
+func (sc *specCtx) typeExpr(e ast.Expr) types.Type {
+	switch e := e.(type) {
+	case *ast.StarExpr:
+		return types.NewPointer(sc.typeExpr(e.X))
+	case *ast.ParenExpr:
+		return sc.typeExpr(e.X)
+	case *ast.Ident:
+		if sc.pkg != nil {
+			if obj, ok := sc.pkg.Scope().Lookup(e.Name).(*types.TypeName); ok {
+				return obj.Type()
+			}
+		}
+		if obj, ok := types.Universe.Lookup(e.Name).(*types.TypeName); ok {
+			return obj.Type()
+		}
+	case *ast.SelectorExpr:
+		if id, ok := e.X.(*ast.Ident); ok {
+			if p := sc.findPkg(id.Name); p != nil {
+				if obj, ok := p.Scope().Lookup(e.Sel.Name).(*types.TypeName); ok {
+					return obj.Type()
+				}
+			}
+		}
+	}
+	sc.errf(e, "unknown type")
+	return nil
 }
